@@ -1,6 +1,5 @@
 \* repaired design (own proposal logged), validator 2 is proposer of (1,0); rounds 0, one height,
 \* one valid peer value, votes from peers 1 and 3; every crash point, up to 2 crashes
-\* Measured: 127,311 distinct states, depth 44.
 CONSTANTS
   NV = 4
   PowerOf <- DrvPowerOf
